@@ -1597,10 +1597,25 @@ def sort_permutes(check: Check, repo: Repo, rule: str = "SORT-PERMUTES") -> None
                 continue
             rets = [r for r in walk_body(h) if isinstance(r, ast.Return) and r.value is not None]
             p0 = h.args.args[0].arg if h.args.args else None
-            if len(rets) != 1 or p0 is None or len([s for s in h.body if not (isinstance(s, ast.Expr) and isinstance(s.value, ast.Constant))]) != 1:
+            stmts = [s for s in h.body if not (isinstance(s, ast.Expr) and isinstance(s.value, ast.Constant)) and not isinstance(s, ast.FunctionDef)]
+            if len(rets) != 1 or p0 is None:
                 why[h.name] = "not a single-return helper"
                 continue
             v = rets[0].value
+            if len(stmts) == 3 and isinstance(v, ast.Name) and isinstance(stmts[1], ast.For) and stmts[2] is rets[0]:
+                # the loop spelling of the dict rebuild: r = {}; for key in sorted(arg, ...): r[key] = arg[key]; return r
+                init, loop = stmts[0], stmts[1]
+                iv = init.value if isinstance(init, (ast.Assign, ast.AnnAssign)) else None
+                it = (init.targets[0] if isinstance(init, ast.Assign) else getattr(init, "target", None))
+                if isinstance(iv, ast.Dict) and not iv.keys and isinstance(it, ast.Name) and it.id == v.id and isinstance(loop.target, ast.Name) \
+                        and len(loop.body) == 1 and isinstance(loop.body[0], ast.Assign) and not loop.orelse \
+                        and unparse(loop.body[0].targets[0]) == f"{v.id}[{loop.target.id}]" and unparse(loop.body[0].value) == f"{p0}[{loop.target.id}]":
+                    v = ast.DictComp(key=ast.Name(id=loop.target.id, ctx=ast.Load()), value=loop.body[0].value,
+                                     generators=[ast.comprehension(target=loop.target, iter=loop.iter, ifs=[], is_async=0)])
+                    stmts = [rets[0]]
+            if len(stmts) != 1:
+                why[h.name] = "not a single-return helper"
+                continue
 
             def is_sorted_of_param(e: ast.AST) -> bool:
                 return isinstance(e, ast.Call) and isinstance(e.func, ast.Name) and e.args and isinstance(e.args[0], ast.Name) and e.args[0].id == p0 \
@@ -1623,9 +1638,13 @@ def sort_permutes(check: Check, repo: Repo, rule: str = "SORT-PERMUTES") -> None
                      "sorted(<argument>, ...)" if h.name in perms else why.get(h.name, "?"))
     # 2. the overriding entries
     n = 0
-    for lam in [x for x in ast.walk(fn) if isinstance(x, ast.Lambda) and isinstance(x.body, ast.Dict) and x.args.args]:
-        cfgname = lam.args.args[0].arg
-        for k, v in zip(lam.body.keys, lam.body.values):
+    mappers: list[tuple[str, ast.Dict]] = [(x.args.args[0].arg, x.body) for x in ast.walk(fn) if isinstance(x, ast.Lambda) and isinstance(x.body, ast.Dict) and x.args.args]
+    for x in ast.walk(fn):  # a mapper written as a local function
+        if isinstance(x, ast.FunctionDef) and x is not fn and x.args.args:
+            rs = [r for r in walk_body(x) if isinstance(r, ast.Return) and isinstance(r.value, ast.Dict) and None in r.value.keys]
+            mappers += [(x.args.args[0].arg, r.value) for r in rs]
+    for cfgname, dct in mappers:
+        for k, v in zip(dct.keys, dct.values):
             if k is None:
                 continue  # **config
             n += 1
